@@ -742,6 +742,14 @@ func c28(r *vkit.Run) {
 			}
 			if c28Terminal(q.Kind) && pos < len(raw) {
 				r.Violation("response-after-connection-ending-request:"+q.Kind, fmt.Sprintf("%d bytes follow the response to a %s request", len(raw)-pos, q.Kind), w)
+				if c28IsDefect(q.Kind) {
+					// say what was answered: a decoy out of the octets behind the framing defect?
+					if nx, _, nrej := http1.ParseResponse(raw[pos:], "GET", 1); nrej == nil {
+						if e := http1.Get(nx.Fields, "X-Echo-Id"); len(e) == 1 && strings.HasPrefix(e[0], "decoy") {
+							r.Violation("decoy-answered:body-of:"+q.Kind, fmt.Sprintf("the response after the one to request #%d answers a decoy request (%s) taken from the octets behind the chunk-framing defect", answered-1, e[0]), w)
+						}
+					}
+				}
 				ok = false
 				break
 			}
